@@ -1,7 +1,7 @@
 //! hv-sim: drivers that need the `elvis` crate (address generator, DHCP, routers, NDL).
 mod ipgen;
-mod util;
-
+mod lifeh;
+pub use hv_common::{simh, util};
 use util::*;
 
 fn main() {
@@ -13,6 +13,7 @@ fn main() {
     let args = Args::parse(&argv[1..]);
     match argv[0].as_str() {
         "ipgen-drive" => ipgen::drive(&args),
+        "life-drive" => lifeh::drive(&args),
         other => {
             eprintln!("unknown command {other}");
             std::process::exit(2);
